@@ -99,8 +99,15 @@ var properties = map[string]Prop{
 		Parts:       []Part{{Harness: "c20"}},
 		Level:       "model_checking",
 		QuickBudget: 200, ThoroughBudget: 1800,
-		Rule: "106 operation scripts (1-4 operations over Once/Loop/Cron(valid,invalid)/Cancel(known,unknown)/Clear/kill owner/fail-and-restart owner/kill receiver; delays 0-3 s so that instants collide; 1-3 jobs; the same reference on two actors; receiver self/other) issued by the owning actor inside handlers at chosen virtual instants incl. exactly at, just before and after firing instants; every schedule up to the delay bound with switch points at messages/sends plus timer deviations at tie instants; oracle = reference timetable (count, not-before-instant, nothing after cancel/clear/owner death/restart, no dead letter for dead jobs, parse error, not-found); distinct_nontrivial = distinct delivery timetables per scenario",
+		Rule:        "106 operation scripts (1-4 operations over Once/Loop/Cron(valid,invalid)/Cancel(known,unknown)/Clear/kill owner/fail-and-restart owner/kill receiver; delays 0-3 s so that instants collide; 1-3 jobs; the same reference on two actors; receiver self/other) issued by the owning actor inside handlers at chosen virtual instants incl. exactly at, just before and after firing instants; every schedule up to the delay bound with switch points at messages/sends plus timer deviations at tie instants; oracle = reference timetable (count, not-before-instant, nothing after cancel/clear/owner death/restart, no dead letter for dead jobs, parse error, not-found); distinct_nontrivial = distinct delivery timetables per scenario",
 		Assumptions: append([]string{coarseAssumption}, schedAssumptions...),
+	},
+	"C10": {
+		Parts:       []Part{{Harness: "c10"}},
+		Level:       "model_checking",
+		QuickBudget: 250, ThoroughBudget: 2400,
+		Rule:        "all 36 unordered pairs (plus 6 triples) of API thread bodies {System.ActorOf, Kill, Tell, Ask+Result, FindActor/ParseRef, event-stream Subscribe/Publish/Unsubscribe, Future.PipeTo/Close on a shared future, ActorRef Clone/Equals/String/Tell on a shared reference} x lifecycle transition racing them {root child (with a child of its own) killed, failing and stopped, failing and restarted}, explored at sync/atomic granularity with delay bounding and the happens-before race detector on (reads/writes of every struct field and map of the vivid packages are tracked); oracle: no data race, no crash, registry == union of children tables, nobody reported terminated twice, no stuck call, System.Stop afterwards empties the registry; distinct_nontrivial = distinct final registries per scenario",
+		Assumptions: schedAssumptions,
 	},
 	"C05": {
 		Parts:       []Part{{Harness: "c05"}},
